@@ -12,7 +12,7 @@
                 child, is acyclic (a rank function decreases along it).  The code
                 itself does not terminate otherwise. *)
 From Coq Require Import List ZArith Bool QArith.
-From NT Require Import Sx Rose RandomTree RandomTreeProofs CaseC20.  (* CaseC20: keeps the correspondence entry point in the same build *)
+From NT Require Import Sx Rose RandomTree RandomTreeProofs RandomTreeComplete CaseC20.  (* CaseC20: keeps the correspondence entry point in the same build *)
 From NTGen Require Import Generated.
 Import ListNotations.
 Open Scope Z_scope.
@@ -36,6 +36,16 @@ Proof.
   exact (make_tree_conf Df Hwf rk Hrk fuel K_root [] s Hf Hm).
 Qed.
 Print Assumptions C20_conforms.
+
+(* EXACTNESS (both directions): with the probabilities in [0,1] (asserted by the
+   constructors, [def_wf2]), a forest conforms if and only if SOME stream makes
+   build_random_tree produce it – the specification [Conf] is neither weaker nor
+   stronger than the code.  (Floats: canonical rationals, as the model produces them.) *)
+Theorem C20_exact : forall (Df : sdef) (rk : text -> nat), def_wf2 Df -> rank_ok Df rk ->
+  forall fuel ptype path f, (rk ptype < fuel)%nat -> mem ptype (d_rels Df) = true ->
+    (Conf Df ptype path f <-> exists s, fst (make_tree Df fuel ptype (dotted path) s) = f).
+Proof. exact conf_exact. Qed.
+Print Assumptions C20_exact.
 
 (* the same at any node type and any index path (prefix string = dotted path) *)
 Theorem C20_conforms_at : forall (Df : sdef) (rk : text -> nat), def_wf Df -> rank_ok Df rk ->
@@ -232,12 +242,12 @@ Print Assumptions C20_constructors.
    the hypotheses of C20_conforms *)
 Theorem C20_domain_checks : forall Df fuel rk, in_domain Df fuel rk = true ->
   let rkf := rk_of (map (fun p => (fst p, Z.to_nat (snd p))) rk) in
-  def_wf Df /\ rank_ok Df rkf /\ (rkf K_root < Z.to_nat fuel)%nat /\ mem K_root (d_rels Df) = true.
+  def_wf Df /\ def_wf2 Df /\ rank_ok Df rkf /\ (rkf K_root < Z.to_nat fuel)%nat /\ mem K_root (d_rels Df) = true.
 Proof.
   intros Df fuel rk H. unfold in_domain in H.
   apply andb_true_iff in H. destruct H as [H H4]. apply andb_true_iff in H. destruct H as [H H3].
-  apply andb_true_iff in H. destruct H as [H1 H2].
-  refine (conj (def_wfb_ok _ H1) (conj (rank_okb_ok _ _ H2) (conj _ H4))). apply Nat.ltb_lt. exact H3.
+  apply andb_true_iff in H. destruct H as [H1 H2]. apply def_wf2b_ok in H1.
+  refine (conj (def_wf2_wf _ H1) (conj H1 (conj (rank_okb_ok _ _ H2) (conj _ H4)))). apply Nat.ltb_lt. exact H3.
 Qed.
 Print Assumptions C20_domain_checks.
 
